@@ -29,7 +29,7 @@ INF = float("inf")
 
 @st.composite
 def coord(draw):
-    cls = draw(st.sampled_from(["lin", "lin", "touch", "log", "log", "decade", "nearmiss", "posnolog", "unb", "neg"]))
+    cls = draw(st.sampled_from(["lin", "lin", "touch", "log", "log", "decade", "nearmiss", "posnolog", "unb", "neg", "zerolb"]))
     e = draw(st.integers(-12, 12))
     s = draw(st.sampled_from([1.0, 2.0, 5.0, 3.3])) * 10.0**e
     if cls in ("lin", "touch", "neg"):
@@ -59,6 +59,12 @@ def coord(draw):
         pub = math.nextafter(plb * 10.0, 0.0)
         lb = plb * draw(st.sampled_from([1.0, 0.5]))
         ub = pub * draw(st.sampled_from([1.0, 2.0]))
+    elif cls == "zerolb":
+        # everything but the hard lower bound (exactly 0) looks like a log variable: must stay linear
+        lb = 0.0
+        plb = s
+        pub = plb * draw(st.sampled_from([10.0, 1e3, 77.0]))
+        ub = pub * draw(st.sampled_from([1.0, 10.0]))
     elif cls == "posnolog":
         lb = s
         plb = lb * draw(st.sampled_from([1.0, 1.5]))
